@@ -119,6 +119,8 @@ def gate_table(rng):
     add(("hyperv.replay-signature", [("bit", b) for b in range(32)]))
     add(("hyperv.objtable-signature", [("bit", b) for b in range(32)]))
     add(("hyperv.keytable-signature", [("bit", b) for b in range(16)]))
+    # only a superseded generation of a key table (lower sequence number, listed behind the current one) has the wrong signature
+    add(("hyperv.superseded-keytable-signature", [("bit", b) for b in range(16)]))
     add(("envelope.magic", [("bit", b) for b in range(21 * 8)]))
     add(("envelope.version", version_values(rng, {2}, n_rand=8)))
     add(("envelope.aead-version", version_values(rng, {1}, n_rand=8)))
@@ -135,6 +137,8 @@ def gate_table(rng):
     add(("keysafe.kdf", string_variants(["PBKDF2-HMAC-SHA-1"])[:60]))
     add(("hdd.image-type", string_variants(["Plain", "Compressed"])))
     add(("hdd.missing-descriptor", [0]))
+    # ... also when it is not the opened snapshot's own image but one of its ancestors' that has the unsupported type
+    add(("hdd.image-type-of-ancestor", [(pos, v) for pos in ("parent", "base") for v in string_variants(["Plain", "Compressed"])[:12]]))
     return g
 
 
@@ -376,6 +380,28 @@ def _apply(gate: str, value, control: bool, ctx, rng):
     if fam == "hyperv":
         from dissect.hypervisor.descriptor.hyperv import HyperVFile
 
+        if what == "superseded-keytable-signature":
+            from vf.writers import hyperv as whv
+
+            tree = {"configuration": {"i": whv.Val("int", -5), "s": whv.Val("string", "x"), "sub": {"deep": whv.Val("int", 7)}}}
+            for _try in range(40):
+                raw_, meta_ = whv.build(rng, tree, ntables=1, stale_tables=2, free_prob=0.0, extra_object_tables=0)
+                raw = bytearray(raw_)
+                nobj = struct.unpack_from("<I", raw, 0x2004)[0]
+                order = []  # key tables in object-table order: (offset, sequence number)
+                for i in range(nobj):
+                    t_, _x, off_, _sz, alloc_ = struct.unpack_from("<BIQIB", raw, 0x2008 + 18 * i)
+                    if alloc_ and off_ in meta_["table_offsets"]:
+                        order.append((off_, struct.unpack_from("<H", raw, off_ + 4)[0]))
+                newest = max(range(len(order)), key=lambda j: order[j][1]) if order else 0
+                later = [off_ for off_, _sq in order[newest + 1:]]
+                if later:
+                    break
+            else:
+                raise RuntimeError("no superseded table listed behind the current one")
+            if not control:
+                _flip(raw, later[0], value[1])
+            return call(lambda: HyperVFile(io.BytesIO(bytes(raw))).as_dict())
         inp = inps["hyperv"]
         raw = bytearray(inp.raw)
         fields = {n: (o_, s_) for n, o_, s_, _ in inp.fields}
@@ -466,6 +492,17 @@ def _apply(gate: str, value, control: bool, ctx, rng):
             if control:
                 whds.write_hdd_dir(str(d), [{"start": 0, "end": 8, "images": [{"guid": g, "type": "Plain", "file": "x.hds"}]}], [(g, whds.NULL_GUID)])
             return call(lambda: HDD(d).open().read(512))
+        if what == "image-type-of-ancestor":
+            g1, g0 = "{11111111-2222-3333-4444-555555555555}", "{66666666-7777-8888-9999-aaaaaaaaaaaa}"
+            types = {"top": "Plain", "parent": "Plain", "base": "Plain"}
+            if not control:
+                types[value[0]] = value[1]
+            images = [{"guid": g, "type": types["top"], "file": "x.hds"}, {"guid": g1, "type": types["parent"], "file": "p.hds"},
+                      {"guid": g0, "type": types["base"], "file": "b.hds"}]
+            rng.shuffle(images)
+            whds.write_hdd_dir(str(d), [{"start": 0, "end": 8, "images": images}], [(g, g1), (g1, g0), (g0, whds.NULL_GUID)],
+                               files={"x.hds": b"D" * 4096, "p.hds": b"P" * 4096, "b.hds": b"B" * 4096})
+            return call(lambda: HDD(d).open(rng.choice([None, g])).read(512))
         whds.write_hdd_dir(str(d), [{"start": 0, "end": 8, "images": [{"guid": g, "type": typ, "file": "x.hds"}]}], [(g, whds.NULL_GUID)], files={"x.hds": b"D" * 4096})
         return call(lambda: HDD(d).open().read(512))
     raise ValueError(gate)
